@@ -71,6 +71,27 @@ def _in_lazy_branch(node):
     return False
 
 
+def _kind_guarded_in_expression(node, p):
+    """the use sits in the branch of a conditional expression (or behind an `and`) whose test is `isinstance(<p>, <type>)`:
+    `len(value) if isinstance(value, bytes) else None` - the kind is settled before the use is evaluated"""
+    def positive(t):
+        return isinstance(t, ast.Call) and isinstance(t.func, ast.Name) and t.func.id == 'isinstance' and len(t.args) == 2 \
+            and isinstance(t.args[0], ast.Name) and t.args[0].id == p
+    child = node
+    for a in ancestors(node):
+        if isinstance(a, ast.stmt):
+            break
+        if isinstance(a, ast.IfExp):
+            if child is a.body and positive(a.test):
+                return True
+            if child is a.orelse and isinstance(a.test, ast.UnaryOp) and isinstance(a.test.op, ast.Not) and positive(a.test.operand):
+                return True
+        if isinstance(a, ast.BoolOp) and isinstance(a.op, ast.And) and child in a.values and any(positive(v) for v in a.values[:a.values.index(child)]):
+            return True
+        child = a
+    return False
+
+
 _HELPER_SUMMARIES = {}
 
 
@@ -457,6 +478,8 @@ def raw_value_typestate(ctx):
                         if not (isinstance(n, ast.Name) and n.id == p and isinstance(n.ctx, ast.Load)):
                             continue
                         if _in_lazy_branch(n):
+                            continue
+                        if _kind_guarded_in_expression(n, p):
                             continue
                         cat, detail, anchor = _classify_use(n, p)
                         state = ma.ins[node.id].get(p, ('RAW', frozenset()))
